@@ -327,7 +327,10 @@ class IASolverBaseClass:  # pylint: disable=R0902
         """
         if self._full_W_H is None:
             if self.W_H is not None:
-                self._full_W_H = np.empty(self.K, dtype=np.ndarray)
+                # Only store the result when all filters were computed: if
+                # anything below raises an exception (precoder not set,
+                # singular equivalent channel) nothing is cached.
+                full_W_H = np.empty(self.K, dtype=np.ndarray)
                 for k in range(self.K):
                     # Equivalent channel with the effect of the precoder,
                     # channel and receive filter
@@ -338,7 +341,8 @@ class IASolverBaseClass:  # pylint: disable=R0902
                     # could set full_W_H to just W_H or you could try the
                     # stream reduction (but stream reduction should be
                     # performed at the precoders too)
-                    self._full_W_H[k] = np.linalg.solve(Hieq, self.W_H[k])
+                    full_W_H[k] = np.linalg.solve(Hieq, self.W_H[k])
+                self._full_W_H = full_W_H
 
         return self._full_W_H
 
@@ -357,9 +361,10 @@ class IASolverBaseClass:  # pylint: disable=R0902
             filter.
         """
         if self._full_W is None:
-            self._full_W = np.empty(self.K, dtype=np.ndarray)
+            full_W = np.empty(self.K, dtype=np.ndarray)
             for k in range(self.K):
-                self._full_W[k] = self.full_W_H[k].conj().T
+                full_W[k] = self.full_W_H[k].conj().T
+            self._full_W = full_W
         return self._full_W
 
     def set_receive_filters(self,
